@@ -283,7 +283,7 @@ fn minimise_many(items: &[(Spec, Target)], tag: &str, max_rounds: usize) -> (Vec
             if !active[k] {
                 continue;
             }
-            let c: Vec<Spec> = shrink::reductions(s).into_iter().take(60).collect();
+            let c: Vec<Spec> = shrink::reductions(s).into_iter().take(40).collect();
             if c.is_empty() {
                 active[k] = false;
             }
@@ -314,6 +314,28 @@ fn minimise_many(items: &[(Spec, Target)], tag: &str, max_rounds: usize) -> (Vec
         }
     }
     (cur, rounds)
+}
+
+fn corpus_path() -> std::path::PathBuf {
+    vcore::verif_root().join("gen").join("corpus").join("C41.json")
+}
+
+/// Minimal failing specifications found earlier (committed seed corpus). They are re-checked on
+/// every run; one that still fails the same way as a group of generated specifications is that
+/// group's minimal case, which makes signatures stable and saves the minimisation rebuilds.
+fn load_corpus() -> Vec<Spec> {
+    let Ok(s) = std::fs::read_to_string(corpus_path()) else { return vec![] };
+    let Ok(v) = serde_json::from_str::<Value>(&s) else { return vec![] };
+    v["specs"].as_array().map(|a| a.iter().filter_map(|x| serde_json::from_value(x.clone()).ok()).collect()).unwrap_or_default()
+}
+
+fn save_corpus(specs: &[Spec]) {
+    let p = corpus_path();
+    if let Some(d) = p.parent() {
+        let _ = std::fs::create_dir_all(d);
+    }
+    let v = json!({"note": "minimal failing IDL specifications (C41); regenerate with VERIF_GEN_UPDATE_CORPUS=1", "specs": specs});
+    let _ = std::fs::write(p, serde_json::to_vec_pretty(&v).unwrap());
 }
 
 pub fn run(ctx: &Ctx) -> ! {
@@ -377,8 +399,14 @@ pub fn run(ctx: &Ctx) -> ! {
     // minimised representative: (is_reject, key) -> (smallest spec, message, count)
     let mut groups: BTreeMap<(u8, String), (Spec, String, u64)> = BTreeMap::new();
     let mut compiled_ok = 0u64;
+    let corpus = load_corpus();
+    // (class, key) -> smallest corpus specification failing that way
+    let mut corpus_hit: BTreeMap<(u8, String), Spec> = BTreeMap::new();
     for b in 0..batches {
-        let specs: Vec<Spec> = (0..per_batch).map(|_| r#gen::gen_spec(&mut src)).collect();
+        let mut specs: Vec<Spec> = (0..per_batch).map(|_| r#gen::gen_spec(&mut src)).collect();
+        if b == 0 {
+            specs.extend(corpus.iter().cloned());
+        }
         let out = match evaluate_batch(&specs, &tag, &crate_name) {
             Ok(o) => o,
             Err(e) => {
@@ -388,7 +416,25 @@ pub fn run(ctx: &Ctx) -> ! {
         };
         build_s += out.build_s;
         builds += out.builds;
-        for (s, o) in specs.iter().zip(&out.outcomes) {
+        for (k, (s, o)) in specs.iter().zip(&out.outcomes).enumerate() {
+            if k >= per_batch {
+                // corpus entry: only remembered as a candidate minimal case
+                let ck = match o {
+                    Outcome::Panicked { key, .. } => Some((0u8, key.clone())),
+                    Outcome::Rejected { key, .. } => Some((1u8, key.clone())),
+                    Outcome::DoesNotCompile { key, .. } => Some((2u8, key.clone())),
+                    Outcome::Checked(_) => None,
+                };
+                if let Some(ck) = ck {
+                    match corpus_hit.get(&ck) {
+                        Some(old) if shrink::size(old) <= shrink::size(s) => {}
+                        _ => {
+                            corpus_hit.insert(ck, s.clone());
+                        }
+                    }
+                }
+                continue;
+            }
             let feats = oracle::features(s);
             let classes: Vec<String> = feats.iter().cloned().collect();
             let key = vcore::hash_json(&serde_json::to_value(s).unwrap());
@@ -458,7 +504,12 @@ pub fn run(ctx: &Ctx) -> ! {
     let mut sig_counts: BTreeMap<String, u64> = BTreeMap::new();
     let mut minimal: BTreeMap<(u8, String), Spec> = BTreeMap::new();
     let mut build_items: Vec<((u8, String), (Spec, Target))> = vec![];
+    let mut new_minimal: Vec<Spec> = vec![];
     for ((class, key), (s, _, _)) in &groups {
+        if let Some(c) = corpus_hit.get(&(*class, key.clone())) {
+            minimal.insert((*class, key.clone()), c.clone());
+            continue;
+        }
         match class {
             0 => {
                 minimal.insert((*class, key.clone()), minimise_in_process(s, &Target::Panicked(key.clone())));
@@ -476,6 +527,22 @@ pub fn run(ctx: &Ctx) -> ! {
         for ((k, _), m) in build_items.iter().zip(mins) {
             minimal.insert(k.clone(), m);
         }
+    }
+    for (k, m) in &minimal {
+        if !corpus_hit.contains_key(k) {
+            new_minimal.push(m.clone());
+        }
+    }
+    report.stats.extra.insert("corpus_entries_used".into(), json!(corpus_hit.len()));
+    report.stats.extra.insert("groups_minimised_in_this_run".into(), json!(new_minimal.len()));
+    if std::env::var("VERIF_GEN_UPDATE_CORPUS").is_ok() && !new_minimal.is_empty() {
+        let mut all = corpus.clone();
+        for m in new_minimal {
+            if !all.contains(&m) {
+                all.push(m);
+            }
+        }
+        save_corpus(&all);
     }
     for ((class, key), (orig, msg, count)) in &groups {
         let min = &minimal[&(*class, key.clone())];
